@@ -3,6 +3,7 @@
 EXTENDS GramListing, Json
 CharsQ == {X, E, S}
 CharsT == {X, E, S, T3, R4}
+CharsW == {X, S, T3}
 CONSTANTS MaxLines, MaxChars, Chars
 \* ---- generator
 VARIABLES txt, done
